@@ -660,6 +660,46 @@ func TestC12Worker(t *testing.T) {
 	}
 }
 
+// c12SharedFramingRecv: the receiving side of the same question - two channels built from ONE
+// Framing value (as every connection accepted by a Loop is, and every user of channel.LSP) read
+// independent streams; a record returned by one of them must not be disturbed by a Recv on the other.
+func c12SharedFramingRecv(res *Result, rng *rand.Rand) {
+	for _, kind := range c11Kinds() {
+		if kind == "direct" {
+			continue
+		}
+		f := framingByName(kind)
+		for round := 0; round < 4; round++ {
+			ra, rb := c11Records(rng, kind, false), c11Records(rng, kind, false)
+			if len(ra) == 0 || len(rb) == 0 {
+				continue
+			}
+			sa, _, _ := sendAll(kind, ra)
+			sb, _, _ := sendAll(kind, rb)
+			chA := f(bytes.NewReader(sa), &bufWC{})
+			chB := f(bytes.NewReader(sb), &bufWC{})
+			in := map[string]any{"kind": kind, "stream_a": hx(sa), "stream_b": hx(sb)}
+			res.Case(fmt.Sprintf("shared-recv/%s/%d", kind, round), true, in)
+			res.Count("shared-framing-value-recv")
+			n := min(len(ra), len(rb))
+			for i := 0; i < n; i++ {
+				a, ea := chA.Recv()
+				keep := append([]byte(nil), a...)
+				b, eb := chB.Recv()
+				if ea != nil || eb != nil {
+					break // record sets that this framing cannot carry are C11's business
+				}
+				if !bytes.Equal(a, keep) {
+					res.Violatef("two channels built from one Framing value interfere: a received record was overwritten by a sibling channel's Recv", in,
+						"%s: record %d of channel A was %s, after channel B's Recv it reads %s", kind, i, abbrev1(hx(keep)), abbrev1(hx(a)))
+					break
+				}
+				_ = b // what arrives is C11's business; here only that it stays what it was
+			}
+		}
+	}
+}
+
 func TestC12(t *testing.T) {
 	res := newResult("C12", "arbitrary byte streams per framing: mutated / truncated valid streams, random token strings over a framing-specific alphabet, headers with absurd / overflowing / malformed Content-Length values and field-name case variants; thorough adds every token string up to length 5 (hdr: 4) and every truncation point of valid streams. Streams with huge declared lengths run in a worker process. distinct = distinct stream; non-trivial = stream not empty")
 	defer res.Write(t)
@@ -672,6 +712,7 @@ func TestC12(t *testing.T) {
 	if _, ok := replayInput(); !ok {
 		c12ServerAtEOF(res, rng)
 		c12ServerTruncated(res)
+		c12SharedFramingRecv(res, rng)
 	}
 	kinds := []string{"split:10", "split:255", "split:195", "hdr:0:-", "hdr:1:-", "hdr:0:" + hxs("Text/X-Case"), "hdr:1:" + hxs("Text/X-Case"), "hdr:0:" + hxs("text/x"), "hdr:1:" + hxs("text/x"), "hdr:1:" + hxs(lspType), "raw"}
 	if in, ok := replayInput(); ok {
